@@ -41,6 +41,16 @@ def ren(e, m):
     return trlib.rename(e, m)
 
 
+def sem_same(a, b):
+    """equal as rational functions: same value at three generic rational points (exact arithmetic)"""
+    names = sorted(set(a.free_vars()) | set(b.free_vars()))
+    for seed in (3, 7, 11):
+        env = {n: Fraction((seed * (i + 2) * 7919) % 97 + 1, (seed + i) % 13 + 2) for i, n in enumerate(names)}
+        if fr_eval(a, env) != fr_eval(b, env):
+            return False
+    return True
+
+
 # ------------------------------------------------------------------------------------------------
 # 1. scalar stencils of finite_differences
 # ------------------------------------------------------------------------------------------------
@@ -87,7 +97,7 @@ def stencil_section(img):
                     want = ren(st_["gen_fcb_last"][0], {"a": L[n_ - 2], "b": L[n_ - 1]})
                 else:
                     want = ren(st_["gen_fcb_mid"][0], {"a": L[i - 1], "c": L[i + 1]})
-                if not got[i].same(want):
+                if not sem_same(got[i], want):
                     raise TraceError(f"finite_differences({mode}), length {n_}, position {i}: {got[i]} is not {want}")
     # other axes, batch items with their own spacing
     for mode in MODES[:4]:
@@ -102,7 +112,7 @@ def stencil_section(img):
                 got = [r.a[b_, 0, y, x] for y in range(4)]
                 one = line(img, 4, mode, st.Tensor(np.array([E.var(f"h{b_}")], dtype=object)))
                 want = [ren(e, {f"l{y}": f"c{b_}_0_{y}_{x}" for y in range(4)}) for e in one]
-                if not all(g.same(w) for g, w in zip(got, want)):
+                if not all(sem_same(g, w) for g, w in zip(got, want)):
                     raise TraceError(f"finite_differences({mode}) along y / per-batch spacing is not the 1-D stencil")
     out = []
     for name, (e, vs) in st_.items():
